@@ -150,6 +150,7 @@ type compiler struct {
 	Returns     []int
 	FuncName    string
 	depth       int
+	localTypes  map[string]bool // types declared so far in the function body being compiled, by their global key
 }
 
 const maxCompileDepth = 10000 // each level is a Go stack frame; an unbounded depth overflows the Go stack, which no recover can catch
@@ -624,7 +625,7 @@ func (c *compiler) compile(tok *token) []instruction {
 		key := c.expPrefix(tok.Text)
 		if tok.Text == "$" {
 			res = append(res, instruction{Code: codeGlobalGet, A: reg(c.Globals.Index("$"))})
-		} else if c.isLocal() && c.Globals.Exists(c.FuncName+"."+tok.Text) {
+		} else if c.isLocal() && c.localTypes[c.FuncName+"."+tok.Text] { // (only a type this body declares: the key may be left from an earlier version of the function, or belong to another func init())
 			res = append(res, instruction{Code: codeGlobalGet, A: reg(c.Globals.Index(c.FuncName + "." + tok.Text))})
 		} else if c.Locals.Exists(tok.Text) {
 			res = append(res, instruction{Code: codeLocalGet, A: reg(c.Locals.Index(tok.Text))})
@@ -663,8 +664,8 @@ func (c *compiler) compile(tok *token) []instruction {
 		res = append(res, instruction{Code: codeSlice})
 	case "func":
 		const funcArguments, funcReturns, funcBlock = 0, 1, 2
-		tmp := c.Locals
-		c.Locals = newLookup()
+		tmp, tmpTypes := c.Locals, c.localTypes
+		c.Locals, c.localTypes = newLookup(), map[string]bool{}
 		c.Begin()
 		arguments := len(tok.Tokens[funcArguments].Tokens)
 		var types []instruction
@@ -698,7 +699,7 @@ func (c *compiler) compile(tok *token) []instruction {
 		res = append(res, block...)
 		c.Returns = c.Returns[:len(c.Returns)-1]
 		c.End()
-		c.Locals = tmp
+		c.Locals, c.localTypes = tmp, tmpTypes
 	case "block", ",":
 		res = append(res, c.compileAll(tok.Tokens)...)
 	case "return":
@@ -996,6 +997,7 @@ func (c *compiler) compile(tok *token) []instruction {
 			// idx = c.Shadow(key)
 			key = c.FuncName + "." + key
 			idx = c.Globals.Index(key)
+			c.localTypes[key] = true
 		} else {
 			key = c.expPrefix(key)
 			idx = c.Globals.Index(key)
